@@ -46,7 +46,8 @@ class Hit(object):
 
 
 class PathExec(object):
-  def __init__(self, cx, fn, unroll=1, max_paths=4000, follow_exceptions=True, assume=None):
+  def __init__(self, cx, fn, unroll=1, max_paths=4000, follow_exceptions=True, assume=None, fold_tables=True):
+    self.fold_tables = fold_tables    # replace TABLE[<constant>] by the entry of a literal module-level TABLE
     self.assume = dict(assume or {})      # term -> term: configuration values fixed for this run
     self.cx = cx
     self.fn = fn
@@ -143,7 +144,7 @@ class PathExec(object):
           return self._norm(item[2])
       if has_default:
         return default
-    if tab is not None and isinstance(key, tuple) and key[0] == 'const' and tab not in self.fn.params:
+    if tab is not None and self.fold_tables and isinstance(key, tuple) and key[0] == 'const' and tab not in self.fn.params:
       d = self._module_dict(tab)
       if d is not None:
         try:
